@@ -37,14 +37,16 @@ CHECKS = {
             "For a file of symbolic size and every short-read schedule within the read bound, z3 proves that each configured "
             "hash object is fed exactly the bytes [0,S) once, in order, and that digests are returned in the configured order; "
             "algorithm identity and stored-tuple provenance are concrete anchors.",
-            "z3; <=5 read calls quick / <=7 thorough; hashlib/xxhash trusted; OS read contract",
+            "z3; <=5 read calls quick / <=7 thorough; hashlib/xxhash trusted; OS read contract; plus a second call on another file at "
+            "a solver-chosen point of the first (shared module-level state) and 'hash, replace the file, hash again' with arbitrary stat results",
             "DESIGN.md 3/C16"),
     "C17": ("symx",
             "symbolic execution with z3 of the real path validators and join sites on symbolic paths (SymPath shim)",
             "Every path-valued metadata field and the writer sub-directory are symbolic paths (absolute flag + bounded part "
             "sequence); at every file access of load/check/iterate/write the solver proves the location cannot leave the root "
             "for any path accepted by the validators that ran.",
-            "z3; SymPath abstraction self-tested against pathlib; <=3 parts per path (<=2 in the 4-path reader tree) quick; no "
+            "z3; SymPath abstraction self-tested against pathlib; <=4 parts per validated path, <=3 at writer join sites (<=2 in the "
+            "4-path reader tree) quick; validators also under cwd=/ and python -O; no "
             "symlinks; pydantic field validators discovered through __pydantic_decorators__",
             "DESIGN.md 3/C17"),
     "C20": ("symx",
@@ -100,7 +102,8 @@ CHECKS = {
             "bounded symbolic execution of the real repeating iteration paths with z3 (symbolic prefix length, parallelism, random states)",
             "Prefixes of up to 3 epochs + 1 of the endless stream: never ends, only elements of the split, unshuffled = one-pass "
             "sequence repeated, Rust interface = one permutation and one released native iterator per epoch.",
-            "z3; contracts as C02; tf.data repeat() recorded",
+            "z3; contracts as C02; tf.data repeat() recorded; plus two live streams of one handle in every alternation pattern and a "
+            "second iteration of the returned tf dataset object",
             "DESIGN.md 3/C19"),
     "C13": ("pocomp",
             "thread-modular symbolic summaries of the real lazy_pool.py (symx) + SMT partial-order composition over all interleavings (z3)",
@@ -108,7 +111,8 @@ CHECKS = {
             "operation granularity: no deadlock or leaked worker, exactly-once, failure surfaces, read-ahead <= 2T+3, pool reusable; "
             "an unwinding query and a reachability twin guard the bounds; models are replayed as gated schedules on the real pool "
             "with real threads.",
-            "z3; queue.Queue FIFO/blocking semantics; T<=2 quick (T<=3 thorough), n<=5; a timed get may time out only on an empty queue",
+            "z3; queue.Queue FIFO/blocking semantics (capacity read from the code; bounded put blocks); T<=2 quick (T<=3 thorough), "
+            "n<=5..7; a timed get may time out only on an empty queue; one input value may be None; failure must not be deferred",
             "DESIGN.md 2.3, 3/C13"),
     "C07": ("symx+pocomp",
             "bounded symbolic execution of the real iteration code with a failing decoder (z3) + pocomp queries for the lazy pool + finite fork on real decoders / rebuilt native extension",
@@ -138,7 +142,7 @@ CHECKS = {
             "order across a pickle boundary; write-sets are private and pairwise disjoint, no writer reads what another writes, "
             "shared directory creation tolerates a lost race, results/merge are in argument order, outcome equals the sequential "
             "run (multisets, per-writer order, audit, check()); one real multiprocessing.Pool run anchors the stub.",
-            "Pool.imap contract; uuid4 distinctness; disjoint footprints imply schedule independence; <=3 writers",
+            "Pool.imap contract; uuid4 distinctness; disjoint footprints imply schedule independence; <=3 writers; cpu_count symbolic",
             "DESIGN.md 3/C09"),
     "C01": ("symnp+z3",
             "the real FlatBuffers element kernel executed on a bit-vector model of numpy: one z3 query per (declared dtype, input dtype, byte order, layout, shape) cell over ALL bit patterns; concrete end-to-end sweep for npz/codecs/readers",
@@ -155,7 +159,9 @@ CHECKS = {
             "leak on (early) drop, <= T tasks in flight, for all n<=5 (8), T<=4 (6), every drop position.  z3 proves the index "
             "arithmetic of ParallelMap::next and ShardProgress::next for all 64-bit values and the equality of the Python-side "
             "re-typing with the Python reader for all bit patterns; a rebuilt extension is compared with the Python reader.",
-            "mpsc/thread library semantics; Kahn determinism; MIR closure-capture printing quirk; decoders' byte equality only by differential anchor",
+            "mpsc/thread library semantics; Kahn determinism; MIR closure-capture printing quirk; decoders' byte equality only by "
+            "differential anchor; RustIter registry: all life-cycle interleavings of <=3 iterators (rand::random fresh w.r.t. live keys), "
+            "2 Python threads x every interleaving of registry-mutex/GIL operations",
             "DESIGN.md 2.4, 3/C15, 7.2"),
 }
 
